@@ -9,8 +9,8 @@ use std::collections::BTreeSet;
 /// sections, mirrors, sharding function, pool mode. One probe client per (user, shard id written
 /// in the file, role), one for the default shard, one admin.
 pub fn c15(rng: &mut Rng, _thorough: bool, idx: u64) -> Spec {
-    // every 41st run: a valid file with more than ten shards ("10" sorts before "2" as text)
-    let many = idx % 41 == 40;
+    // every 47th run: a valid file with more than ten shards ("10" sorts before "2" as text)
+    let many = idx % 47 == 46;
     let nshards = if many { rng.range(11, 13) as usize } else { rng.range(1, 3) as usize };
     let replicas = if many { 0 } else { rng.range(0, 1) as usize };
     let mut cfg = sharded_pool("transaction", 2, nshards, replicas);
@@ -23,7 +23,7 @@ pub fn c15(rng: &mut Rng, _thorough: bool, idx: u64) -> Spec {
     let kinds = [
         "valid", "valid", "valid", "shard_ids_start_at_1", "shard_ids_with_gap", "shard_id_not_numeric", "shard_id_huge", "shard_id_negative", "shard_id_leading_zero", "two_primaries", "no_primary", "duplicate_server",
         "default_shard_beyond_range", "default_shard_last", "default_shard_random", "default_shard_random_healthy", "default_shard_bogus", "default_role_bogus", "default_role_capitalised", "default_role_replica_without_replicas",
-        "user_without_password", "auth_query_incomplete", "min_pool_size_above_pool_size", "pool_size_zero", "idle_timeout_zero", "server_lifetime_zero", "connect_timeout_zero", "invalid_sharding_key_regex", "invalid_shard_id_regex", "plugins_without_parser",
+        "user_without_password", "auth_query_incomplete", "min_pool_size_above_pool_size", "pool_size_zero", "idle_timeout_zero", "server_lifetime_zero", "connect_timeout_zero", "autoreload_zero", "healthcheck_timeout_zero", "ban_time_zero", "shutdown_timeout_zero", "invalid_sharding_key_regex", "invalid_shard_id_regex", "plugins_without_parser",
         "rw_split_without_parser", "mirror_of_absent_server", "sharding_function_bogus", "pool_mode_bogus", "automatic_sharding_key_unqualified", "no_servers_in_shard", "same_server_in_two_shards", "duplicate_user_names",
     ];
     let kind = if many { "valid_many_shards" } else { kinds[(idx % kinds.len() as u64) as usize] };
@@ -130,6 +130,13 @@ pub fn c15(rng: &mut Rng, _thorough: bool, idx: u64) -> Spec {
         "server_lifetime_zero" => {
             if rng.chance(0.5) { cfg.set("server_lifetime", 0); } else { cfg.pools[0].extra.push("server_lifetime = 0".into()); }
         }
+        "autoreload_zero" => cfg.set("autoreload", 0),
+        "healthcheck_timeout_zero" => {
+            cfg.set("healthcheck_timeout", 0);
+            cfg.set("healthcheck_delay", 0);
+        }
+        "ban_time_zero" => cfg.set("ban_time", 0),
+        "shutdown_timeout_zero" => cfg.set("shutdown_timeout", 0),
         "connect_timeout_zero" => {
             if rng.chance(0.5) { cfg.set("connect_timeout", 0); } else { cfg.pools[0].extra.push("connect_timeout = 0".into()); }
         }
